@@ -24,7 +24,8 @@ OBJECT_LISTS = {"layers": "layer", "classes": "class", "styles": "style", "symbo
 KV_BLOCKS = ("metadata", "validation", "values", "connectionoptions")
 REPEATED = ("processing", "formatoption", "include", "compfilter")
 WORDS = ["roads", "Layer 1", "a.b", "x_y", "café", "中文", "value-7", "semi;colon", "two  spaces", "it is", "100%", "tab\there",
-         "", " padded ", "two\nlines", "7", "12.5", "1e3", "-3", "nan", "true", "off", "it's", "'primary' and 'secondary'", "'x'", '"a" or "b"', 'say "hi"', "(not an expression", "[half", "#hash", "/slash"]
+         "", " padded ", "two\nlines", "7", "12.5", "1e3", "-3", "nan", "true", "off", "it's", "'primary' and 'secondary'", "'x'", '"a" or "b"', 'say "hi"', "(not an expression", "[half", "#hash", "/slash",
+         "{name}", "{a,b}", "{ spaced }"]
 
 
 # ------------------------------------------------------------------ the independent reader
@@ -270,6 +271,10 @@ class Vocab:
             return v, [["N", str(v)]]
         if kind == "string":
             w = r.choice(WORDS)
+            if key == "expression" and w.strip().startswith("{") and w.strip().endswith("}"):
+                # on EXPRESSION a brace-shaped string IS the list expression (the dictionary holds both as the same
+                # string): outside the "free strings" clause - not generated
+                w = "roads"
             return w, [["Q", w]]
         if kind == "binding":
             w = "[" + r.choice(["name", "ATTR_1", "size", "name-en", "gml:name", "pop-2020", "ÀÉ"]) + "]"
